@@ -28,9 +28,10 @@ contract(P + "_Property.evolve", requires=PROP_WF,
          returns="isinstance(result, _Property) and result.element is self.element and result.required is self.required",
          result_cls="_Property", ghost={"result_fresh": True}, props=["C08", "C13", "C14"])
 
-contract(P + "_Property.__call__", requires=PROP_WF + " and is_obj(self.element) and not is_np(value)",
-         returns="result is build(self.element, value)",
-         raises=[(("ValidationError", "TypeError"), "not sem(self.element, value)")],
+contract(P + "_Property.__call__", requires=PROP_WF + " and is_obj(self.element)",
+         returns="result is (dflt(self.element) if is_np(value) else build(self.element, value))",
+         raises=[(("ValidationError", "TypeError"), "not is_np(value) and not sem(self.element, value)")],
+         ghost={"function": "dflt(self.element) if is_np(value) else build(self.element, value)"},
          calls={"self.element": ECALL}, props=["C01", "C04", "C08"])
 
 contract(P + "_Property.__eq__", requires=PROP_WF,
